@@ -14,11 +14,11 @@ RULE = ('case = history with many force steps: chain.force(tasks given as names 
         'forced tasks that had data (delete_data) else none; recompute executes every forced task exactly once (plus missing unforced inputs); a forced '
         'task runs exactly once on its next request and writes its stored result again (audit-hook write set); unforced stored tasks are loaded. '
         'non-trivial = history with >=1 force step on a chain with >=1 edge; distinct = hash(spec files, roots, sessions)')
-REQUIRED = ['histories', 'force_steps', 'delete_checks', 'replacement_checks', 'runs_observed', 'values_observed', 'prov_loaded']
+REQUIRED = ['name_mode_histories', 'histories', 'force_steps', 'delete_checks', 'replacement_checks', 'runs_observed', 'values_observed', 'prov_loaded']
 ASSUMPTIONS = ['how often a task shared between member chains of a MultiChain is recomputed is not part of this property',
                'sequential histories']
 BUDGET = {'quick': 75, 'thorough': 1500}
-WANT = {'C07', 'C08'}
+WANT = {'C07', 'C08', 'C04'}   # in histories with forcing every run / has_data mismatch concerns this property (e.g. results of unforced tasks deleted)
 OPTS = {'max_sessions': 2, 'max_chains': 3, 'max_requests': 7, 'p_inspect': 0.05, 'p_force': 0.35, 'p_fault': 0.0, 'p_spawn': 0.05}
 
 
@@ -26,7 +26,7 @@ def run_case(case) -> CaseResult:
     res = CaseResult()
     rng = random.Random(case['seed'])
     for i in range(case['n']):
-        run_history_case(rng, res, WANT, OPTS)
+        run_history_case(rng, res, WANT, OPTS, name_mode=rng.random() < 0.3)
         if len(res.violations) > 3:
             break
     return res
